@@ -185,7 +185,10 @@ class _Guards:
     def _block(self, block, kind):
         # recurse first
         for s in block:
-            if isinstance(s, _FUNCS + (ast.ClassDef,)):
+            if isinstance(s, _FUNCS):
+                self._block(s.body, "return")
+                continue
+            if isinstance(s, ast.ClassDef):
                 continue
             if isinstance(s, (ast.For, ast.AsyncFor, ast.While)):
                 self._block(s.body, "continue")
@@ -201,9 +204,6 @@ class _Guards:
                     self._block(h.body, None)
                 self._block(s.orelse, None)
                 self._block(s.finalbody, None)
-        if kind is None:
-            self._merge_split(block)
-            return
         changed = True
         while changed:
             changed = False
@@ -214,7 +214,7 @@ class _Guards:
                     continue
                 rest = block[i + 1:]
                 # G1: guard + rest  ->  if not T: rest
-                if len(s.body) == 1 and rest:
+                if kind is not None and len(s.body) == 1 and rest:
                     g = s.body[0]
                     bare = _is_bare(g, kind)
                     same_tail = tail is not None and isinstance(g, ast.Return) and g.value is not None and ast.unparse(g.value) == ast.unparse(tail.value) and rest[-1] is tail
@@ -227,9 +227,16 @@ class _Guards:
                                 self.n += 1
                                 changed = True
                                 break
+                # G3: `if T: <block that always leaves>` + rest  ->  `if not T: rest else: <block>`  (any terminal block: raise, return x, ...)
+                if s.body and _terminal(s.body) and rest and self._wanted(s.test, True) and not any(isinstance(x, _FUNCS) for x in rest):
+                    new = ast.copy_location(ast.If(test=nnf(s.test, True), body=rest, orelse=s.body), s)
+                    block[i:] = [new]
+                    self.n += 1
+                    changed = True
+                    break
                 # G2: last statement `if T: R` (R not terminal)  ->  if not T: return/continue ; R
                 is_last = (i == len(block) - 1) or (tail is not None and i == len(block) - 2)
-                if is_last and s.body and not _terminal(s.body) and self._wanted(s.test, True):
+                if kind is not None and is_last and s.body and not _terminal(s.body) and self._wanted(s.test, True):
                     if kind == "continue" or tail is None:
                         term = ast.Continue() if kind == "continue" else ast.Return(value=None)
                     else:
@@ -631,8 +638,16 @@ class Inliner:
 
 
 # ------------------------------------------------------------------------------------------------ D. new temporaries
+_STABLE_BUILTINS = ("id", "type", "isinstance")  # results depend only on the identity / class of the argument objects
+
+
 def _pure(e) -> bool:
-    return not any(isinstance(n, (ast.Call, ast.Await, ast.Yield, ast.YieldFrom, ast.NamedExpr)) for n in ast.walk(e))
+    for n in ast.walk(e):
+        if isinstance(n, (ast.Await, ast.Yield, ast.YieldFrom, ast.NamedExpr)):
+            return False
+        if isinstance(n, ast.Call) and not (isinstance(n.func, ast.Name) and n.func.id in _STABLE_BUILTINS and not n.keywords):
+            return False
+    return True
 
 
 def _loads(node, name):
@@ -742,9 +757,35 @@ def substitute_new_temporaries(fn, known_locals: set[str]) -> int:
                     if v in known_locals:
                         continue
                     stores = [n for n in ast.walk(fn) if isinstance(n, ast.Name) and n.id == v and isinstance(n.ctx, (ast.Store, ast.Del))]
-                    if len(stores) != 1:
-                        continue
                     all_loads = [n for n in ast.walk(fn) if isinstance(n, ast.Name) and n.id == v and isinstance(n.ctx, ast.Load)]
+                    if len(stores) != 1:
+                        # several definitions: fine if every one is a plain assignment whose uses all follow it inside its own block
+                        # (the same temporary introduced in several branches); then each region is treated on its own
+                        if not _pure(st.value):
+                            continue
+                        region = []
+                        for stj in block[i + 1:]:
+                            if isinstance(stj, ast.Assign) and any(isinstance(t, ast.Name) and t.id == v for t in stj.targets):
+                                break
+                            region.append(stj)
+                        region_loads = [ld for stj in region for ld in _loads(stj, v)]
+                        others_ok = True
+                        total = 0
+                        for n2 in _walk_no_defs(fn):
+                            for fld2 in ("body", "orelse", "finalbody"):
+                                b2 = getattr(n2, fld2, None)
+                                if isinstance(b2, list):
+                                    for k2, s2 in enumerate(b2):
+                                        if isinstance(s2, ast.Assign) and len(s2.targets) == 1 and isinstance(s2.targets[0], ast.Name) and s2.targets[0].id == v:
+                                            reg2 = []
+                                            for s3 in b2[k2 + 1:]:
+                                                if isinstance(s3, ast.Assign) and any(isinstance(t, ast.Name) and t.id == v for t in s3.targets):
+                                                    break
+                                                reg2.append(s3)
+                                            total += sum(len(_loads(s3, v)) for s3 in reg2)
+                        if total != len(all_loads) or not region_loads:
+                            continue
+                        all_loads = region_loads
                     if not all_loads or i + 1 >= len(block):
                         continue
                     nxt = block[i + 1]
